@@ -97,6 +97,45 @@ Example C03_branch_heads_cache_example :
 Proof. exact heads_cache_example. Qed.
 Print Assumptions C03_branch_heads_cache_example.
 
+(* Round 4, any number of restarts interleaved with requests: run h1; restart; run h2; restart; ...;
+   run hn (hrun_segs: each restart replaces the manager by the loaded one and the cache by the one
+   start-up builds) succeeds and is observably -- repos and every branch name of every repo there
+   is -- the uninterrupted run of h1 ++ h2 ++ ... ++ hn, for EVERY list of request lists (refused
+   requests included); the final state is again one the theorem applies to. *)
+Theorem C03_restarts_interleaved : forall C segs m hc img, hgood m hc img -> inst_ok C m ->
+  exists mf hcf imgf, hrun_segs C m hc img segs = Ok (mf, hcf, imgf) /\
+    hgood mf hcf imgf /\ inst_ok C mf /\
+    let '(m', hc', _) := hrun_img C m hc img (concat segs) in hobs_eq mf hcf m' hc'.
+Proof. exact segs_refine_same. Qed.
+Print Assumptions C03_restarts_interleaved.
+
+Example C03_inst_ok_initial : forall C, inst_ok C (init_mgr C).
+Proof. exact inst_ok_init. Qed.
+Print Assumptions C03_inst_ok_initial.
+
+(* without hypotheses: a server started on an empty store *)
+Theorem C03_restarts_interleaved_from_init : forall C segs,
+  exists mf hcf imgf,
+    hrun_segs C (init_mgr C) [] (apply_ws empty_image (init_writes C)) segs = Ok (mf, hcf, imgf) /\
+    let '(m', hc', _) := hrun_img C (init_mgr C) [] (apply_ws empty_image (init_writes C)) (concat segs) in
+    hobs_eq mf hcf m' hc'.
+Proof. exact segs_refine_from_init. Qed.
+Print Assumptions C03_restarts_interleaved_from_init.
+
+Example C03_restarts_interleaved_example :
+  let segs := [[PNewRepo 11; PCommit 1 1; PNewVersion 1 1 None 12; PNewVersion 1 1 (Some 7) 13; PMerge 1 [2; 3] 14];
+               [PCommit 1 2; PMerge 1 [2; 2] 15; PCommit 1 3; PMerge 1 [3; 2] 17];
+               [PNewVersion 1 2 (Some 8) 18; PNewData 1 5]] in
+  match hrun_segs r_conf (init_mgr r_conf) [] (apply_ws empty_image (init_writes r_conf)) segs with
+  | Ok (mf, hcf, _) =>
+    let '(m', hc', _) := hrun_img r_conf (init_mgr r_conf) [] (apply_ws empty_image (init_writes r_conf)) (concat segs) in
+    pobserve mf = pobserve m' /\ map (cached_head hcf 1) [0; 7; 8] = [Some 4; Some 3; Some 5] /\
+    map (cached_head hc' 1) [0; 7; 8] = [Some 4; Some 3; Some 5]
+  | _ => False
+  end.
+Proof. exact segs_example. Qed.
+Print Assumptions C03_restarts_interleaved_example.
+
 (* The code as it stood: heads recomputed from LEAVES on load vs the live map kept by newRepo and
    newVersion ([live_head] / [rebuilt_head]). *)
 (* A merge node carries branch "" and the live map is not told about it; its parents stop being
